@@ -21,6 +21,7 @@ EXPLANATION = (
     "get_agent / __len__ / __iter__ / get_agents read no environment field but `agents`, write nothing and iterate it "
     "only with order-preserving constructs (dict insertion order = joining order). Removal of a present agent has no "
     "direct raise. Decides atomicity and the map discipline for every state; not errors outside the documented set.")
+EXPLANATION += (" The documented error is built as Error(identifier, self) in add_agent / remove_agent / get_agent. Premises: C08's placement predicate for SpaceWorld.add_agent / remove_agent, C03's join/leave rules for add_agent / remove_agent.")
 ASSUMPTIONS = ["dict preserves insertion order (language fact)", "component sets are not modified while resident (C03's dimension)"]
 
 ALOC = (CORE + 'Environment', 'agents')
